@@ -53,7 +53,7 @@ func Setup(dir string, patterns []string, specDir string) (*Program, *Spec, erro
 	// contracts in the repo: comment-only files behind the build tag
 	seen := map[string]bool{}
 	for path, pk := range p.pkgs {
-		if !strings.HasPrefix(path, "github.com/regen-network/regen-ledger") {
+		if !strings.HasPrefix(path, "github.com/regen-network/regen-ledger") && path != "unit" {
 			continue
 		}
 		for _, f := range pk.GoFiles {
@@ -113,8 +113,10 @@ func cmdVerify(args []string) {
 	sec := fs.Int("timeout", 10, "seconds per obligation")
 	keep := fs.String("keep", "", "directory to keep SMT files in")
 	verbose := fs.Bool("v", false, "verbose")
+	expect := fs.Bool("expect", false, "unit corpus mode: compare every verdict with the `note expect=pass|left|fail:<obligation prefix>` of the contract; exit 1 on any mismatch")
 	fs.Parse(args)
 	t0 := time.Now()
+	mismatch := 0
 	p, sp, err := Setup(*dir, strings.Split(*pk, ","), *spec)
 	if err != nil {
 		fmt.Fprintln(os.Stderr, err)
@@ -252,6 +254,61 @@ func cmdVerify(args []string) {
 		if len(r.Inlined) > 0 && *verbose {
 			fmt.Printf("   inlined: %s\n", strings.Join(r.Inlined, ", "))
 		}
+		if *expect {
+			var failed []string
+			for _, o := range r.Obls {
+				if !o.Cover && o.Result != "unsat" {
+					failed = append(failed, strings.SplitN(o.Name, "#", 2)[0])
+				}
+			}
+			for c, ok := range coverOK {
+				if !ok {
+					failed = append(failed, "vacuous:"+c)
+				}
+			}
+			sort.Strings(failed)
+			verdict := "pass"
+			if r.Subset != "" {
+				verdict = "left"
+			} else if len(failed) > 0 {
+				verdict = "fail:" + strings.Join(failed, ",")
+			}
+			want := ""
+			for _, f := range strings.Fields(con.Note) {
+				if strings.HasPrefix(f, "expect=") {
+					want = f[len("expect="):]
+				}
+			}
+			ok := want == verdict
+			if strings.HasPrefix(want, "fail:") && strings.HasPrefix(verdict, "fail:") {
+				// every failing obligation must be an expected one, and there must be one
+				ok = true
+				for _, f := range failed {
+					hit := false
+					for _, w := range strings.Split(want[len("fail:"):], "|") {
+						if strings.HasPrefix(f, w) {
+							hit = true
+						}
+					}
+					if !hit {
+						ok = false
+					}
+				}
+			}
+			if ok {
+				fmt.Printf("   UNIT-OK %s: %s\n", fn, verdict)
+			} else {
+				fmt.Printf("   UNIT-MISMATCH %s: expected %s, got %s\n", fn, want, verdict)
+				mismatch++
+			}
+		}
+	}
+	if *expect {
+		fmt.Fprintf(os.Stderr, "unit corpus: %d functions, %d mismatches\n", len(fns), mismatch)
+		if mismatch > 0 || len(fns) == 0 {
+			os.Exit(1)
+		}
+		os.Exit(0)
 	}
 	fmt.Fprintf(os.Stderr, "done in %.1fs, %d problems\n", time.Since(t0).Seconds(), bad)
 	if bad > 0 {
